@@ -126,6 +126,8 @@ pub open spec fn H() -> nat { 0x1_0000000000000000_0000000000000000nat }
 pub uninterp spec fn u(x: U256) -> nat;
 /// the U256 whose value is n (n < 2^256)
 pub open spec fn choose_u(n: nat) -> U256 { choose|x: U256| u(x) == n }
+/// the I256 whose value is n
+pub open spec fn choose_s(n: int) -> I256 { choose|x: I256| s(x) == n }
 pub uninterp spec fn s(x: I256) -> int;
 /// value of a native-endian (= little-endian, the crate refuses to build otherwise) 32-byte array
 pub uninterp spec fn le_val(b: [u8; 32]) -> nat;
@@ -233,6 +235,14 @@ pub assume_specification[ I256::from_ne_bytes ](b: [u8; 32]) -> (r: I256)
 pub assume_specification[ I256::wrapping_div ](a: I256, b: I256) -> (r: I256)
     requires s(b) != 0,
     ensures s(r) == to_signed(to_unsigned(tdiv(s(a), s(b))));    // MIN / -1 wraps to MIN
+pub assume_specification[ I256::checked_div ](a: I256, b: I256) -> (r: Option<I256>)
+    ensures r == (if s(b) == 0 || (s(a) == -(M() as int) / 2 && s(b) == -1) { None::<I256> } else { Some(choose_s(tdiv(s(a), s(b)))) });   // None on zero divisor AND on MIN / -1
+pub assume_specification[ I256::checked_rem ](a: I256, b: I256) -> (r: Option<I256>)
+    ensures r == (if s(b) == 0 || (s(a) == -(M() as int) / 2 && s(b) == -1) { None::<I256> } else { Some(choose_s(trem(s(a), s(b)))) });
+pub assume_specification[ U256::checked_div ](a: U256, b: U256) -> (r: Option<U256>)
+    ensures r == (if u(b) == 0 { None::<U256> } else { Some(choose_u(u(a) / u(b))) });
+pub assume_specification[ U256::checked_rem ](a: U256, b: U256) -> (r: Option<U256>)
+    ensures r == (if u(b) == 0 { None::<U256> } else { Some(choose_u(u(a) % u(b))) });
 pub assume_specification[ I256::wrapping_rem ](a: I256, b: I256) -> (r: I256)
     requires s(b) != 0,
     ensures s(r) == trem(s(a), s(b));
